@@ -10,6 +10,9 @@ func RandomString(length int) string {
 	if length < 0 {
 		return ""
 	}
+	if s, ok := verifNext(length); ok {
+		return s
+	}
 	charset := "0123456789abcdefghijklmnopqrstuvwxyzABCDEFGHIJKLMNOPQRSTUVWXYZ"
 	randbytes := make([]byte, 0, length)
 	for i := 0; i < length; i++ {
